@@ -242,6 +242,87 @@ theorem parseExtBlockL_located (buf tail : Bytes) (p : UInt16) (off : Nat) (l : 
       exact ⟨Nat.le_refl _, Nat.le_refl _, by
         simpa using (slice_of_drop_eq l.length hl (Nat.le_refl _)).symm⟩
 
+/-! ### the values appear in the input in element order and do not overlap -/
+
+/-- `x` ends before `y` starts -/
+def Before (x y : Ext × Nat) : Prop := x.2 + x.1.payload.length ≤ y.2
+
+theorem parseOneByteL_sorted (buf tail : Bytes) (off : Nat) (l : Bytes) :
+    ∀ es left, buf.drop off = l ++ tail → parseOneByteL off l = .ok (es, left) →
+      es.Pairwise Before := by
+  fun_induction parseOneByteL off l with
+  | case1 off => intro es left _ h; simp at h; obtain ⟨rfl, rfl⟩ := h; simp
+  | case2 off b rest hb ih =>
+    intro es left hl h
+    exact ih es left (drop_add_of_drop_eq 1 hl (by simp)) h
+  | case3 off b rest hb id hid =>
+    intro es left _ h; simp at h; obtain ⟨rfl, rfl⟩ := h; simp
+  | case4 => intro es left _ h; simp at h
+  | case5 off b rest hb id len hid hlen es' left' heq ih =>
+    intro es left hl h
+    simp only [Res.ok.injEq, Prod.mk.injEq] at h
+    obtain ⟨rfl, rfl⟩ := h
+    have hl1 := drop_add_of_drop_eq 1 hl (by simp)
+    have hl' := drop_add_of_drop_eq len hl1 (by simp at hlen ⊢; omega)
+    simp only [List.drop_one, List.tail_cons] at hl1 hl'
+    obtain ⟨_, h2⟩ := parseOneByteL_located buf tail _ _ es' left' hl' heq
+    rw [List.pairwise_cons]
+    refine ⟨fun y hy => ?_, ih es' left' hl' heq⟩
+    obtain ⟨a, _, _⟩ := h2 y hy
+    simp only [Before, List.length_take]
+    omega
+  | case6 => intro es left _ h; simp at h
+  | case7 => intro es left _ h; simp at h
+
+theorem parseTwoByteL_sorted (buf tail : Bytes) (off : Nat) (l : Bytes) :
+    ∀ es, buf.drop off = l ++ tail → parseTwoByteL off l = .ok es → es.Pairwise Before := by
+  fun_induction parseTwoByteL off l with
+  | case1 off => intro es _ h; simp at h; subst h; simp
+  | case2 off b rest hb ih =>
+    intro es hl h
+    exact ih es (drop_add_of_drop_eq 1 hl (by simp)) h
+  | case3 => intro es _ h; simp at h
+  | case4 => intro es _ h; simp at h
+  | case5 off b hb lb rest2 len hlen es' heq ih =>
+    intro es hl h
+    simp only [Res.ok.injEq] at h
+    subst h
+    have hl2 := drop_add_of_drop_eq 2 hl (by simp)
+    have hl' := drop_add_of_drop_eq len hl2 (by simp at hlen ⊢; omega)
+    simp only [List.drop_succ_cons, List.drop_zero] at hl2 hl'
+    have h2 := parseTwoByteL_located buf tail _ _ es' hl' heq
+    rw [List.pairwise_cons]
+    refine ⟨fun y hy => ?_, ih es' hl' heq⟩
+    obtain ⟨a, _, _⟩ := h2 y hy
+    simp only [Before, List.length_take]
+    omega
+  | case6 => intro es _ h; simp at h
+  | case7 => intro es _ h; simp at h
+
+theorem parseExtBlockL_sorted (buf tail : Bytes) (p : UInt16) (off : Nat) (l : Bytes)
+    (es : List (Ext × Nat)) (used : Nat) (hl : buf.drop off = l ++ tail)
+    (h : parseExtBlockL p off l = .ok (es, used)) : es.Pairwise Before := by
+  unfold parseExtBlockL at h
+  split at h
+  · split at h
+    · rename_i es' left heq
+      simp only [Res.ok.injEq, Prod.mk.injEq] at h
+      obtain ⟨rfl, rfl⟩ := h
+      exact parseOneByteL_sorted buf tail off l es' left hl heq
+    · simp at h
+    · simp at h
+  · split at h
+    · split at h
+      · rename_i es' heq
+        simp only [Res.ok.injEq, Prod.mk.injEq] at h
+        obtain ⟨rfl, rfl⟩ := h
+        exact parseTwoByteL_sorted buf tail off l es' hl heq
+      · simp at h
+      · simp at h
+    · simp only [Res.ok.injEq, Prod.mk.injEq] at h
+      obtain ⟨rfl, rfl⟩ := h
+      simp
+
 theorem zip_map_fst_snd {α β} (l : List (α × β)) : (l.map (·.1)).zip (l.map (·.2)) = l := by
   induction l with
   | nil => rfl
@@ -298,6 +379,116 @@ theorem hdrUnmarshalL_bounds (r : Header) (buf : Bytes) (h : Header) (n : Nat) (
           refine ⟨by omega, by omega, rfl, by simp, by simp⟩
       · simp at hok
   · simp at hok
+
+/-- inversion of a successful `Header.Unmarshal` with the X bit: the elements come from one
+    block parse at `start` (after the 4-byte extension header) -/
+theorem hdrUnmarshalL_ok_ext (r : Header) (buf : Bytes) (h : Header) (n : Nat) (locs : List Nat)
+    (hok : hdrUnmarshalL r buf = .ok (h, n, locs)) (hx : h.extension = true) :
+    ∃ start block tail es used, buf.drop start = block ++ tail ∧
+      parseExtBlockL h.extProfile start block = .ok (es, used) ∧
+      h.exts = es.map (·.1) ∧ locs = es.map (·.2) ∧ n = start + used ∧ 16 ≤ start := by
+  unfold hdrUnmarshalL at hok
+  simp only [] at hok
+  split at hok
+  · split at hok
+    · simp at hok
+    · split at hok
+      · split at hok
+        · split at hok
+          · split at hok
+            · simp at hok
+            · split at hok
+              · rename_i _ b0 b1 s0 s1 _ t0 t1 t2 t3 c0 c1 c2 c3 rest12 hlen hx' _ p0 p1 l0 l1 afterHdr heq hshort _ es used hparse
+                simp only [Res.ok.injEq, Prod.mk.injEq] at hok
+                obtain ⟨rfl, rfl, rfl⟩ := hok
+                have hdrop : (b0 :: b1 :: s0 :: s1 :: t0 :: t1 :: t2 :: t3 :: c0 :: c1 :: c2 :: c3 :: rest12).drop
+                    (12 + (b0 &&& 15).toNat * 4 + 4) =
+                    afterHdr.take ((rd16 l0 l1).toNat * 4) ++ afterHdr.drop ((rd16 l0 l1).toNat * 4) := by
+                  rw [Nat.add_assoc, drop12, ← List.drop_drop, heq, List.take_append_drop]
+                  rfl
+                exact ⟨_, _, _, es, used, hdrop, hparse, rfl, rfl, rfl, by omega⟩
+              · simp at hok
+              · simp at hok
+          · simp at hok
+        · rename_i hlen hx'
+          simp only [Res.ok.injEq, Prod.mk.injEq] at hok
+          obtain ⟨rfl, rfl, rfl⟩ := hok
+          exact absurd hx hx'
+      · simp at hok
+  · simp at hok
+
+/-- the extension values lie in the input in element order, without overlap -/
+theorem hdrUnmarshalL_sorted (r : Header) (buf : Bytes) (h : Header) (n : Nat) (locs : List Nat)
+    (hok : hdrUnmarshalL r buf = .ok (h, n, locs)) : (h.exts.zip locs).Pairwise Before := by
+  by_cases hx : h.extension = true
+  · obtain ⟨start, block, tail, es, used, hd, hp, he, hl, _, _⟩ := hdrUnmarshalL_ok_ext r buf h n locs hok hx
+    rw [he, hl, zip_map_fst_snd]
+    exact parseExtBlockL_sorted buf tail _ start block es used hd hp
+  · have := (hdrUnmarshalL_bounds r buf h n locs hok).2.2.2.2 (by simpa using hx)
+    simp [this]
+
+/-! ### the shape of parsed elements -/
+
+theorem shr4_le (b : UInt8) : (b >>> 4).toNat ≤ 15 := by
+  have := b.toNat_lt
+  have h4 : (4 : UInt8).toNat % 8 = 4 := by decide
+  rw [UInt8.toNat_shiftRight, h4, Nat.shiftRight_eq_div_pow]
+  omega
+
+theorem and15_le (b : UInt8) : (b &&& 15).toNat ≤ 15 := by
+  rw [UInt8.toNat_and]
+  exact Nat.and_le_right
+
+/-- one-byte elements as parsed: id ≤ 14, 1–16 bytes -/
+theorem parseOneByteL_shape (off : Nat) (l : Bytes) :
+    ∀ es left, parseOneByteL off l = .ok (es, left) →
+      ∀ x ∈ es, x.1.id.toNat ≤ 14 ∧ 1 ≤ x.1.payload.length ∧ x.1.payload.length ≤ 16 := by
+  fun_induction parseOneByteL off l with
+  | case1 off => intro es left h; simp at h; obtain ⟨rfl, rfl⟩ := h; simp
+  | case2 off b rest hb ih => intro es left h; exact ih es left h
+  | case3 off b rest hb id hid => intro es left h; simp at h; obtain ⟨rfl, rfl⟩ := h; simp
+  | case4 => intro es left h; simp at h
+  | case5 off b rest hb id len hid hlen es' left' heq ih =>
+    intro es left h
+    simp only [Res.ok.injEq, Prod.mk.injEq] at h
+    obtain ⟨rfl, rfl⟩ := h
+    intro x hx
+    rcases List.mem_cons.mp hx with rfl | hx
+    · have h1 := shr4_le b
+      have h2 := and15_le b
+      have h3 : (b >>> 4).toNat ≠ 15 := by
+        intro hc; apply hid
+        simp only [id, beq_iff_eq]
+        exact UInt8.toNat_inj.mp (by simpa using hc)
+      simp only [List.length_take]
+      simp only [len, id] at hlen ⊢
+      omega
+    · exact ih es' left' heq x hx
+  | case6 => intro es left h; simp at h
+  | case7 => intro es left h; simp at h
+
+/-- two-byte elements as parsed: id ≠ 0, ≤ 255 bytes -/
+theorem parseTwoByteL_shape (off : Nat) (l : Bytes) :
+    ∀ es, parseTwoByteL off l = .ok es →
+      ∀ x ∈ es, x.1.id ≠ 0 ∧ x.1.payload.length ≤ 255 := by
+  fun_induction parseTwoByteL off l with
+  | case1 off => intro es h; simp at h; subst h; simp
+  | case2 off b rest hb ih => intro es h; exact ih es h
+  | case3 => intro es h; simp at h
+  | case4 => intro es h; simp at h
+  | case5 off b hb lb rest2 len hlen es' heq ih =>
+    intro es h
+    simp only [Res.ok.injEq] at h
+    subst h
+    intro x hx
+    rcases List.mem_cons.mp hx with rfl | hx
+    · have := lb.toNat_lt
+      refine ⟨by simpa using hb, ?_⟩
+      simp only [List.length_take, len]
+      omega
+    · exact ih es' heq x hx
+  | case6 => intro es h; simp at h
+  | case7 => intro es h; simp at h
 
 /-! ### Packet.Unmarshal -/
 
